@@ -84,7 +84,7 @@ def guards(ck, P):
     if ck.anchor("fn read_buf_window", rb):
         ck.use_fn(rb)
         cs = rb.live_calls(r"deflate::window::Window::copy_and_initialize$")
-        ck.floor(R + ":read_buf_window", len(cs), 3)
+        ck.floor(R + ":read_buf_window", len(cs), 1)
         for i, c in enumerate(cs):
             a = rb.call_args(c)
             rng = a[1]
